@@ -7,10 +7,12 @@ from vf.proofs import base
 for m in sys.argv[1].split(','):
     importlib.import_module('vf.proofs.'+m)
 only = sys.argv[2] if len(sys.argv)>2 else None
+only_kind = sys.argv[3] if len(sys.argv)>3 and not sys.argv[3].startswith('-') else None
 tot=collections.Counter(); t0=time.time()
 for fam in base.REGISTRY:
     if only and only not in fam.name: continue
     for kind in fam.kinds():
+        if only_kind and only_kind != kind: continue
         r = base.run_kind(fam, kind)
         c = collections.Counter(o['status'] for o in r['obligations'])
         tot.update(c)
